@@ -851,30 +851,36 @@ func c05Levels(tier string) []core.Level {
 				}
 			}
 		}},
-		{Name: "callbacks: f(e1..en), e|g(e1..en), e is t(e1..en) for n <= 3 with arguments that are literals, recording calls or filtered recording calls; inside operators, arrays, conditionals", Gen: func(emit func(core.Case)) {
+		{Name: "callbacks: f(e1..en), e|g(e1..en), e is t(e1..en) for n <= 3 with arguments that are literals, recording calls, filtered recording calls or filters with their own (recording) arguments; inside operators, arrays, conditionals", Gen: func(emit func(core.Case)) {
 			// argument shapes: literal i; r(i); r(i)|g
 			arg := func(shape, i int) []int {
 				lit := []int{0, 2 * i} // operand literal i (0,1,2,3)
+				rcall := append([]int{9, 1}, lit...)
 				switch shape {
 				case 0:
 					return lit
 				case 1:
-					return append([]int{9, 1}, lit...)
+					return rcall
+				case 2:
+					return append(append([]int{10}, rcall...), 0) // r(i)|g
+				case 3:
+					return append(append(append([]int{10}, lit...), 1), rcall...) // i|g(r(i))
 				default:
-					return append(append([]int{10, 9, 1}, lit...), 0)
+					return append(append(append(append([]int{10}, rcall...), 2), lit...), rcall...) // r(i)|g(i, r(i))
 				}
 			}
+			const shapes = 5
 			for n := 0; n <= 3; n++ {
 				total := 1
 				for i := 0; i < n; i++ {
-					total *= 3
+					total *= shapes
 				}
 				for m := 0; m < total; m++ {
 					var args []int
 					x := m
 					for i := 0; i < n; i++ {
-						args = append(args, arg(x%3, i+1)...)
-						x /= 3
+						args = append(args, arg(x%shapes, i+1)...)
+						x /= shapes
 					}
 					emit(core.Case{Fam: "term", N: append([]int{9, n}, args...)})
 					for subj := 0; subj < 3; subj++ {
